@@ -35,6 +35,8 @@ func checkIdempotent(c *InjectCase) string {
 	if err := os.WriteFile(path, []byte(in), 0o644); err != nil {
 		return "harness: " + err.Error()
 	}
+	injectVia = c.Via
+	defer func() { injectVia = "" }()
 	var first string
 	for i, mode := range c.Hist {
 		if _, err := runInjector(mode, dir, path); err != nil {
@@ -82,6 +84,10 @@ func TestC07(t *testing.T) {
 			withGlob = withGlob || m == "cli-p"
 		}
 		c.Sub = genDirName(t, withGlob)
+		c.Via = rapid.SampledFrom(injectVias).Draw(t, "via")
+		if c.Via != "" {
+			ev.Class("path-given-as=" + c.Via)
+		}
 		if c.Sub != "" {
 			ev.Class("directory-name=" + c.Sub)
 		}
